@@ -10,6 +10,7 @@ Spec (on the pair (A, B) returned by align_polynomials, i.e. same rows, same sha
 from __future__ import annotations
 import z3
 from engine.contract import Contract, Case
+from engine import values as V
 from engine.sx import LoopSpec
 from engine.logic import I, Idx, B, inshape, ndim, bshape, bok
 from engine.polymodel import Poly, Arr, Region, shape_axioms, dt_bool, ravel_shape, unravel_idx, ravel_idx
@@ -218,8 +219,46 @@ class Where(Contract):
     func = "where"
     properties = ("C09",)
 
+    assumptions = ("B6: selecting every coefficient column with ONE boolean mask selects whole polynomial elements",
+                   "condition given as a boolean array of the operands' common shape; two polynomial operands")
+
     def cases(self):
-        return iter(())          # body verified in a later round; used here as an assumed contract
+        def make_env(ex):
+            from contracts.align import sym_polys
+            ps = sym_polys(ex, 2)
+            ex.inputs = ps
+            common = bshape(ps[0].shape, ps[1].shape)
+            cf = ex.ctx.func("condition", Idx, B)
+            ex.cond = Arr(common, lambda i: cf(i), "bool", region=Region("caller", "condition"))
+            ex.ghost = {}
+            ex.hooks = {"after_align": lambda ex_, res: ex_.ghost.update(aligned=list(res))}
+            return {"condition": ex.cond, "args": tuple(ps)}
+
+        def check(out):
+            ex, ctx = out.ex, out.ctx
+            ex.oblige(f"raises.nothing[{out.exc}:{out.value}]" if out.kind == "raise" else "raises.nothing", z3.BoolVal(out.kind == "return"), "post")
+            if out.kind != "return":
+                return
+            r = out.value
+            ok = isinstance(r, Poly) and hasattr(r, "from_attrs") and "aligned" in ex.ghost
+            ex.oblige("post.built_from_the_aligned_operands", z3.BoolVal(ok), "post")
+            if not ok:
+                return
+            A, Bp = ex.ghost["aligned"]
+            fa = r.from_attrs
+            from engine.polymodel import NamesV as _NV, result_type as _rt
+            ex.oblige("post.rows_and_names_of_the_aligned_operands", z3.BoolVal(
+                getattr(fa["E"], "source", None) is A and isinstance(fa["names"], _NV) and fa["names"].term is A.names), "post")
+            Cs = V.as_seq(ex, fa["C"])
+            c = ex.cond.elem
+            ex.oblige("post.every_column_selected_with_the_same_mask", z3.And(Cs.n == A.N, ctx.forall_range(0, A.N, lambda t: z3.And(
+                Cs.item(t).shape == A.shape, ctx.forall_idx(
+                    lambda i: Cs.item(t).elem(i) == z3.If(c(i), A.C(t, i), Bp.C(t, i)), A.shape)))), "post",
+                note="term t of the result is term t of x where the condition holds and of y elsewhere, for every term alike")
+            ex.oblige("post.dtype_is_numpy_promotion", r.dtype == _rt(ex.inputs[0].dtype, ex.inputs[1].dtype), "post")
+            ex.oblige("post.shape", r.shape == A.shape, "post")
+            ex.oblige("post.fresh", z3.BoolVal(r.region.owner == "fresh"), "post")
+        yield Case("", make_env, check)
 
     def apply(self, ex, args, kw, node):
         cond, x, y = args
